@@ -274,12 +274,22 @@ def _fnum(x):
 
 
 def _close(c, got, want, dmin, bound_terms, noise, rscale):
-    """|got - want| * dmin <= noise * bound_terms   (exact equality when noise == 0)"""
+    """conditions (each its own query) for |got - want| * dmin <= noise * bound_terms   (exact equality when noise == 0)"""
     if noise == 0:
-        return c.eq(got * dmin, want * dmin, rscale)
+        return [c.eq(got * dmin, want * dmin, rscale)]
     diff = (got - want) * dmin
     b = bound_terms * noise if c.symbolic else bound_terms * float(noise)
-    return c.all([c.le(diff, b, rscale), c.le(-diff, b, rscale)])
+    return [c.le(diff, b, rscale), c.le(-diff, b, rscale)]
+
+
+def _check_close(c, name, info, *a, split=False):
+    """one query for the two-sided bound (the path condition dominates the cost in the adaptive mode), or one per side"""
+    conds = _close(c, *a)
+    if split:
+        for cond in conds:
+            c.check(name, cond, info=info)
+    else:
+        c.check(name, c.all(conds) if len(conds) > 1 else conds[0], info=info)
 
 
 def _shape_of(x):
@@ -368,7 +378,7 @@ def _scen_affine(c, inst):
                     c.check(P + "entry_ij_equals_unflattened_entry", c.eq(got * dmin, reference[(i, j)] * dmin, rs), info=dict(i=i, j=j))
                     continue
                 bound = absval(c, A[i][j]) * dmin + absF[i]
-                c.check(P + "entry_ij_is_d_output_i_d_input_j", _close(c, got, A[i][j], dmin, bound, noise, rs), info=dict(i=i, j=j))
+                _check_close(c, P + "entry_ij_is_d_output_i_d_input_j", dict(i=i, j=j), got, A[i][j], dmin, bound, noise, rs)
         if not flat_mode:
             reference = entries
 
@@ -443,7 +453,7 @@ def _scen_poly(c, inst):
             for k in range(2, deg + 1):
                 inner = inner + absval(c, tk(k)) * hm ** (k - 1)
             bound = absval(c, tk(0)) + dmin * inner
-            c.check(P + "entry_ij_is_d_output_i_d_input_j", _close(c, J[i, j], tk(1), dmin, bound, noise, rs), info=dict(i=i, j=j))
+            _check_close(c, P + "entry_ij_is_d_output_i_d_input_j", dict(i=i, j=j), J[i, j], tk(1), dmin, bound, noise, rs, split=not inst["adaptive"])
 
 
 # --------------------------------------------------------------------------------------------------------------------
@@ -630,7 +640,7 @@ def _scen_hist(c, inst):
                 if not c.symbolic:
                     rs = 64 * sum(_fnum(G[i][q]) * (_fnum(y0[q]) + 1.0) for q in range(n))
                 bound = absval(c, G[i][j]) * dmin + absval(c, Fv[i])
-                c.check(P + "fd_entry_ij_for_requested_time", _close(c, Jf[i * n + j], G[i][j], dmin, bound, noise, rs), info=dict(info, i=i, j=j))
+                _check_close(c, P + "fd_entry_ij_for_requested_time", dict(info, i=i, j=j), Jf[i * n + j], G[i][j], dmin, bound, noise, rs)
 
 
 def scenario(c, inst):
